@@ -664,7 +664,9 @@ fn main() {
             for m in parts_probe(&mut r) { writeln!(w, "X colls parts probe :: {m}").unwrap(); }
         }
         if case % 10 == 5 {
-            for m in extras_probe(&mut r) { writeln!(w, "X colls extras probe :: {m}").unwrap(); }
+            let (notes, cline) = extras_probe(&mut r);
+            if let Some(c) = cline { writeln!(w, "{c}").unwrap(); }
+            for m in notes { writeln!(w, "X colls extras probe :: {m}").unwrap(); }
         }
         let kind = r.pick(&kinds);
         let n = match r.below(8) { 0 => 0, 1 => 1, 2 => 2, _ => r.range(3, 12) as usize };
